@@ -38,6 +38,11 @@ func HarnessC12a() {
 	if err != nil {
 		return
 	}
+	if verifBoundOr("CACHE", 0) == 1 {
+		// the re-loaded tree works through a node cache that starts empty (a restarted process): every node
+		// is behind a Load once, and whatever a failed load leaves in the cache is met again afterwards
+		cfg.NodeCache = mkCache(1)
+	}
 	t, err = r.LoadMast(vctx, cfg)
 	verifAssert("C01.load.err", err == nil)
 	if err != nil {
@@ -176,7 +181,15 @@ func HarnessC12a() {
 		verifAssert("C12.size-unchanged", t.Size() == size0)
 		verifClass("C12.delete-shrink-load-fails-after-removal", verifAnd(op == 1, verifErrHas(ferr, "shrink: ")))
 		verifAssert("C12.height-unchanged", t.Height() == height0)
-		ks, vs, ierr := iterAll(t)
+		var ks, vs []uint64
+		var ierr error
+		// reading the tree after the failed call must not blow up either (a panic here means the failed call left
+		// something behind, e.g. in the node cache, that the fault-free view trips over)
+		readPanicked := verifPanics(func() { ks, vs, ierr = iterAll(t) })
+		verifAssert("C12.readable-after-error", !readPanicked)
+		if readPanicked {
+			return
+		}
 		verifAssert("C12.iter-after-error.err", ierr == nil)
 		if ierr == nil {
 			verifClass("C12.delete-shrink-load-fails-after-removal", verifAnd(op == 1, verifErrHas(ferr, "shrink: ")))
